@@ -1,8 +1,214 @@
 import RecipeGrid.Model.Site
+import RecipeGrid.Lemmas.Site
+/-! C17 — the generated site does not depend on the order in which the file system lists a directory:
+    sub-categories are sorted by (title, directory name), recipes by (title, file name), with a total order on
+    strings, so any two listings of the same tree (sibling names distinct) give the same pages. -/
 namespace RG.C17
 /-- titles are compared as Python compares strings: `strLe` is reflexive, so the stable sort keeps listing order among equal titles -/
 theorem strLe_refl (s : Str) : strLe s s = true := by
   induction s with
   | nil => rfl
   | cons c cs ih => simp [strLe, ih]
+
+-- ================================================================ `strLe` is a total order (lexicographic by code point)
+theorem strLe_total (a b : Str) : strLe a b = true ∨ strLe b a = true := RG.strLe_total a b
+theorem strLe_trans (a b c : Str) (h1 : strLe a b = true) (h2 : strLe b c = true) : strLe a c = true :=
+  RG.strLe_trans a b c h1 h2
+theorem strLe_antisymm (a b : Str) (h1 : strLe a b = true) (h2 : strLe b a = true) : a = b :=
+  RG.strLe_antisymm a b h1 h2
+
+example : strLe "Apple".toList "apple".toList = true ∧ strLe "apple".toList "Apple".toList = false := by decide
+example : strLe "Zebra".toList "apple".toList = true := by decide   -- code-point order, as Python's `sorted`
+
+-- ================================================================ the sort is determined by the multiset
+/-- the model's sort really sorts: the result is ordered and is a permutation of the input -/
+theorem insertionSort_sorts {α} (le : α → α → Bool) (l : List α)
+    (total : ∀ a ∈ l, ∀ b ∈ l, le a b = true ∨ le b a = true)
+    (trans : ∀ a ∈ l, ∀ b ∈ l, ∀ c ∈ l, le a b = true → le b c = true → le a c = true) :
+    (insertionSort le l).Pairwise (fun a b => le a b = true) ∧ (insertionSort le l).Perm l :=
+  ⟨insertionSort_pairwise le l total trans, insertionSort_perm le l⟩
+
+/-- if `le` is a total order on the elements (antisymmetric: no two distinct elements with equal keys), the sorted
+    list depends only on the multiset of elements, not on their order -/
+theorem insertionSort_perm_invariant {α} (le : α → α → Bool) (l₁ l₂ : List α)
+    (total : ∀ a ∈ l₁, ∀ b ∈ l₁, le a b = true ∨ le b a = true)
+    (trans : ∀ a ∈ l₁, ∀ b ∈ l₁, ∀ c ∈ l₁, le a b = true → le b c = true → le a c = true)
+    (antisymm : ∀ a ∈ l₁, ∀ b ∈ l₁, le a b = true → le b a = true → a = b)
+    (h : l₁.Perm l₂) : insertionSort le l₁ = insertionSort le l₂ :=
+  insertionSort_eq_of_perm le l₁ l₂ total trans antisymm h
+
+example : insertionSort (fun a b : Nat => decide (a ≤ b)) [3, 1, 2] = insertionSort (fun a b : Nat => decide (a ≤ b)) [2, 3, 1] := by decide
+/-- without antisymmetry the (stable) sort keeps the listing order of ties -/
+example : insertionSort (fun a b : Nat × Nat => decide (a.1 ≤ b.1)) [(1, 0), (1, 1)]
+    ≠ insertionSort (fun a b : Nat × Nat => decide (a.1 ≤ b.1)) [(1, 1), (1, 0)] := by decide
+
+-- ================================================================ one category page
+/-- the category page of a directory (its breadcrumbs, sorted sub-category list and sorted recipe list) and the
+    (title, path) it reports to its parent do not change when the directory's entries are listed in another order,
+    provided sibling directory names are distinct and sibling file names are distinct -/
+theorem category_lists_perm_invariant (M : Nat) (sv : Option Nat) (chain : List (Str × Str)) (dirs : List Str) (isRoot : Bool)
+    (n : Str) (r : Option Str) (recipes recipes' : List RecipeFile) (subdirs subdirs' : List Dir)
+    (hr : recipes.Perm recipes') (hs : subdirs.Perm subdirs')
+    (hnr : (recipes.map (·.file)).Nodup) (hns : (subdirs.map Dir.name).Nodup) :
+    (categoryPages M sv chain dirs isRoot (.mk n r recipes subdirs)).1.head?
+      = (categoryPages M sv chain dirs isRoot (.mk n r recipes' subdirs')).1.head?
+    ∧ (categoryPages M sv chain dirs isRoot (.mk n r recipes subdirs)).2
+      = (categoryPages M sv chain dirs isRoot (.mk n r recipes' subdirs')).2 :=
+  let h := categoryPages_perm_here M sv chain dirs isRoot n r recipes recipes' subdirs subdirs' hr hs hnr hns
+  ⟨h.1, h.2.2⟩
+
+-- ================================================================ the whole site
+/-- sibling names are distinct everywhere in the tree (as on a real file system) -/
+inductive DistinctNames : Dir → Prop
+  | mk {n : Str} {r : Option Str} {recipes : List RecipeFile} {subdirs : List Dir} :
+      (subdirs.map Dir.name).Nodup → (recipes.map (·.file)).Nodup → (∀ s ∈ subdirs, DistinctNames s) →
+      DistinctNames (.mk n r recipes subdirs)
+
+/-- `Relisted d d'`: `d'` is the same source tree as `d` with the entries of any number of directories
+    (at any depth) listed in another order -/
+inductive Relisted : Dir → Dir → Prop
+  | refl (d : Dir) : Relisted d d
+  | here {n : Str} {r : Option Str} {recipes recipes' : List RecipeFile} {subdirs subdirs' : List Dir} :
+      recipes.Perm recipes' → subdirs.Perm subdirs' → Relisted (.mk n r recipes subdirs) (.mk n r recipes' subdirs')
+  | sub {n : Str} {r : Option Str} {recs : List RecipeFile} {pre post : List Dir} {s s' : Dir} :
+      Relisted s s' → Relisted (.mk n r recs (pre ++ s :: post)) (.mk n r recs (pre ++ s' :: post))
+  | trans {a b c : Dir} : Relisted a b → Relisted b c → Relisted a c
+
+/-- every hierarchy of pages below a directory is the same multiset of pages (paths, titles, link lists), headed by the
+    same category page, whatever the listing order -/
+theorem hierarchy_perm_invariant {d d' : Dir} (h : Relisted d d') : DistinctNames d →
+    DistinctNames d' ∧ d.name = d'.name ∧ d.readmeTitle = d'.readmeTitle ∧ maxNativeServings d = maxNativeServings d' ∧
+    ∀ (M : Nat) (sv : Option Nat) (chain : List (Str × Str)) (dirs : List Str) (isRoot : Bool),
+      (categoryPages M sv chain dirs isRoot d).1.head? = (categoryPages M sv chain dirs isRoot d').1.head?
+      ∧ (categoryPages M sv chain dirs isRoot d).1.Perm (categoryPages M sv chain dirs isRoot d').1
+      ∧ (categoryPages M sv chain dirs isRoot d).2 = (categoryPages M sv chain dirs isRoot d').2 := by
+  induction h with
+  | refl d => exact fun hd => ⟨hd, rfl, rfl, rfl, fun _ _ _ _ _ => ⟨rfl, List.Perm.refl _, rfl⟩⟩
+  | @here n r recipes recipes' subdirs subdirs' hr hs =>
+    intro hd
+    cases hd with
+    | mk hns hnr hsub =>
+      refine ⟨DistinctNames.mk ((hs.map _).nodup hns) ((hr.map _).nodup hnr) (fun s hs' => hsub s (hs.mem_iff.mpr hs')),
+        rfl, rfl, maxNativeServings_perm_here n r recipes recipes' subdirs subdirs' hr hs, ?_⟩
+      intro M sv chain dirs isRoot
+      exact categoryPages_perm_here M sv chain dirs isRoot n r recipes recipes' subdirs subdirs' hr hs hnr hns
+  | @sub n r recs pre post s s' _ ih =>
+    intro hd
+    cases hd with
+    | mk hns hnr hsub =>
+      obtain ⟨hd', hname, hreadme, hmax, hpages⟩ := ih (hsub s (by simp))
+      refine ⟨DistinctNames.mk ?_ hnr ?_, rfl, rfl, maxNativeServings_perm_sub n r recs pre post s s' hmax, ?_⟩
+      · simpa [hname] using hns
+      · intro t ht
+        rcases List.mem_append.mp ht with ht | ht
+        · exact hsub t (by simp [ht])
+        · rcases List.mem_cons.mp ht with rfl | ht
+          · exact hd'
+          · exact hsub t (by simp [ht])
+      · intro M sv chain dirs isRoot
+        exact categoryPages_perm_sub M sv n r recs pre post s s' hname hreadme
+          (fun chain dirs => (hpages M sv chain dirs false).2.1) chain dirs isRoot
+  | trans _ _ ih1 ih2 =>
+    intro hd
+    obtain ⟨hb, n1, r1, m1, p1⟩ := ih1 hd
+    obtain ⟨hc, n2, r2, m2, p2⟩ := ih2 hb
+    refine ⟨hc, n1.trans n2, r1.trans r2, m1.trans m2, ?_⟩
+    intro M sv chain dirs isRoot
+    have a := p1 M sv chain dirs isRoot
+    have b := p2 M sv chain dirs isRoot
+    exact ⟨a.1.trans b.1, a.2.1.trans b.2.1, a.2.2.trans b.2.2⟩
+
+/-- C17: two listings of the same source tree (sibling names distinct) give the same site: the same error, or the same
+    multiset of pages — each with identical path, title and link list — with the home page first -/
+theorem site_perm_invariant (root root' : Dir) (rootName : Str) (M : Nat) (h : Relisted root root') (hd : DistinctNames root) :
+    (∀ ps, sitePages root rootName M = .ok ps →
+      ∃ ps', sitePages root' rootName M = .ok ps' ∧ ps.Perm ps' ∧ ps.head? = ps'.head?) ∧
+    (∀ e, sitePages root rootName M = .error e → sitePages root' rootName M = .error e) := by
+  obtain ⟨_, hname, hreadme, hmax, hpages⟩ := hierarchy_perm_invariant h hd
+  have htitle : root.title (some rootName) = root'.title (some rootName) := by
+    unfold Dir.title
+    rw [hreadme, hname]
+  have hhome : homePage root rootName M = homePage root' rootName M := by
+    unfold homePage; rw [htitle]
+  have hchain : homeChain root rootName = homeChain root' rootName := by
+    unfold homeChain; rw [htitle]
+  constructor
+  · intro ps hps
+    obtain ⟨hle, rfl⟩ := (sitePages_ok ..).mp hps
+    refine ⟨_, (sitePages_ok ..).mpr ⟨hmax ▸ hle, rfl⟩, ?_, ?_⟩
+    · rw [hhome, hchain]
+      apply List.Perm.cons
+      apply List.Perm.append
+      · exact flatMap_perm_pointwise _ _ _ (fun m _ => (hpages M (some (m + 1)) _ [] true).2.1)
+      · exact (hpages M none _ [] true).2.1
+    · rw [hhome]; rfl
+  · intro e he
+    unfold sitePages at he ⊢
+    rw [← hmax]
+    split
+    · rename_i hgt
+      simp only [hgt, if_true] at he
+      exact he
+    · rename_i hgt
+      simp only [hgt, if_false] at he
+      cases he
+
+-- ================================================================ the structural reading of "re-listed"
+mutual
+/-- structural reading: same name and README, recipes permuted, sub-directories re-listed recursively and permuted -/
+inductive SameTree : Dir → Dir → Prop
+  | mk {n : Str} {r : Option Str} {recipes recipes' : List RecipeFile} {subdirs mid subdirs' : List Dir} :
+      recipes.Perm recipes' → SameForest subdirs mid → mid.Perm subdirs' →
+      SameTree (.mk n r recipes subdirs) (.mk n r recipes' subdirs')
+inductive SameForest : List Dir → List Dir → Prop
+  | nil : SameForest [] []
+  | cons {d d' : Dir} {ds ds' : List Dir} : SameTree d d' → SameForest ds ds' → SameForest (d :: ds) (d' :: ds')
+end
+
+mutual
+theorem SameTree.relisted : ∀ {d d' : Dir}, SameTree d d' → Relisted d d'
+  | _, _, @SameTree.mk n r recipes recipes' subdirs mid subdirs' hr hf hp =>
+    Relisted.trans (by simpa using SameForest.relisted n r recipes [] hf) (Relisted.here hr hp)
+theorem SameForest.relisted (n : Str) (r : Option Str) (recs : List RecipeFile) :
+    ∀ (pre : List Dir) {ds ds' : List Dir}, SameForest ds ds' → Relisted (.mk n r recs (pre ++ ds)) (.mk n r recs (pre ++ ds'))
+  | pre, _, _, .nil => Relisted.refl _
+  | pre, _, _, @SameForest.cons d d' ds ds' hd hds =>
+    Relisted.trans (Relisted.sub (SameTree.relisted hd))
+      (by simpa using SameForest.relisted n r recs (pre ++ [d']) hds)
+end
+
+/-- C17 with the structural relation: permute the entries of every directory of the tree, all at once -/
+theorem site_perm_invariant_structural (root root' : Dir) (rootName : Str) (M : Nat) (h : SameTree root root') (hd : DistinctNames root) :
+    (∀ ps, sitePages root rootName M = .ok ps →
+      ∃ ps', sitePages root' rootName M = .ok ps' ∧ ps.Perm ps' ∧ ps.head? = ps'.head?) ∧
+    (∀ e, sitePages root rootName M = .error e → sitePages root' rootName M = .error e) :=
+  site_perm_invariant root root' rootName M h.relisted hd
+
+-- ================================================================ non-vacuity
+def soup : RecipeFile := ⟨"soup.md".toList, "Soup".toList, some 2⟩
+def stew : RecipeFile := ⟨"stew.md".toList, "Stew".toList, none⟩
+def cakes : Dir := .mk "Cakes".toList none [⟨"tiffin.md".toList, "Tiffin".toList, none⟩] []
+def breads : Dir := .mk "breads".toList (some "Breads".toList) [] []
+def treeA : Dir := .mk "book".toList none [soup, stew] [cakes, breads]
+def treeB : Dir := .mk "book".toList none [stew, soup] [breads, cakes]
+
+example : Relisted treeA treeB := Relisted.here (List.Perm.swap _ _ _) (List.Perm.swap _ _ _)
+example : SameTree treeA treeB :=
+  SameTree.mk (List.Perm.swap _ _ _)
+    (SameForest.cons (SameTree.mk (List.Perm.refl _) SameForest.nil (List.Perm.refl _))
+      (SameForest.cons (SameTree.mk (List.Perm.refl _) SameForest.nil (List.Perm.refl _)) SameForest.nil))
+    (List.Perm.swap _ _ _)
+example : DistinctNames treeA :=
+  DistinctNames.mk (by decide) (by decide) (by
+    intro s hs
+    simp only [List.mem_cons, List.not_mem_nil, or_false] at hs
+    rcases hs with rfl | rfl
+    · exact DistinctNames.mk (by decide) (by decide) (by simp)
+    · exact DistinctNames.mk (by decide) (by decide) (by simp))
+/-- the page *order* may differ (sub-hierarchies are emitted in listing order); the multiset of pages does not,
+    and the home page and root category page (sorted lists) are identical -/
+example : ((sitePages treeA "book".toList 2).toOption.map fun ps => ps.map (·.links))
+    ≠ ((sitePages treeB "book".toList 2).toOption.map fun ps => ps.map (·.links)) := by decide
+example : ((sitePages treeA "book".toList 2).toOption.map fun ps => (ps.map (·.links)).take 2)
+    = ((sitePages treeB "book".toList 2).toOption.map fun ps => (ps.map (·.links)).take 2) := by decide
 end RG.C17
